@@ -96,6 +96,8 @@ Section M.
     Variables (ridx h_p : Z) (pn : node) (mf_p : flags) (mt_p a0p : Z).
     Variable KR_p : value -> list obs * mres.
     Variable stk0 : list value.
+    (* a post-processing of observations (identity for plain programs, dropping LOOP events for event programs) *)
+    Variable post : list obs * mres -> list obs * mres.
     Hypothesis Gp : getn ridx = Some pn.
     Hypothesis NFp : nflags pn = mf_p.
     Hypothesis STp : scIdx pn = fin mt_p.
@@ -105,11 +107,11 @@ Section M.
     Hypothesis RIp : RootInv (ridx + 1) h_p mf_p mt_p a0p.
     Hypothesis EndH : ridx + 1 = L -> h_p = 0.
     Hypothesis Hroot : forall v f, (need (ridx + 1) <= f)%nat ->
-      afterD (run f) (ridx + 1) mf_p (fin mt_p) v stk0 = KR_p v.
+      post (afterD (run f) (ridx + 1) mf_p (fin mt_p) v stk0) = KR_p v.
 
     (* where value b lands when it arrives as the parent's result *)
     Lemma parent_lands b : exists l, landsR ridx b l /\ os_le l h_p /\
-      forall f x, (need (ridx + 1) <= f)%nat -> landR (run f) l (VBool b) (stk0 ++ x) = KR_p (VBool b).
+      forall f x, (need (ridx + 1) <= f)%nat -> post (landR (run f) l (VBool b) (stk0 ++ x)) = KR_p (VBool b).
     Proof.
       pose proof (nthZ_range _ _ _ Gp) as R.
       destruct (Z.eq_dec ridx lastI) as [El | Nl].
@@ -134,7 +136,7 @@ Section M.
             apply (lands_through ridx pn b mt_p Gp M STp ltac:(lia)). exact Hlp.
           * intros f x Hf. rewrite <- (Hroot (VBool b) f Hf). unfold EvalDefs.afterD. rewrite Hm.
             rewrite (lands_chain_top P ridx (fin mt_p) b lp Hlp R).
-            -- apply landR_prefix with (h := h_p); [exact Hos|lia].
+            -- f_equal. apply landR_prefix with (h := h_p); [exact Hos|lia].
             -- destruct (fin_cases mt_p) as [E|E]; rewrite E; [left; reflexivity|right; lia].
         + exists (LAt ridx pn). split; [|split].
           * unfold EvalDefs.landsR. rewrite fin_id by exact Nl. constructor; assumption.
@@ -155,7 +157,7 @@ Section M.
       let tg := climb fl anc' ridx in
       RootInv nextc hc fl tg ridx /\
       forall b, fhas fl b = true -> forall f x, (need (ridx + 1) <= f)%nat ->
-        landR (run f) (chain P (length (nodes P)) (fin tg) b) (VBool b) (stk0 ++ x) = KR_p (VBool b).
+        post (landR (run f) (chain P (length (nodes P)) (fin tg) b) (VBool b) (stk0 ++ x)) = KR_p (VBool b).
     Proof.
       intros HA Haidx Hlo Hnext Hhc anc' tg.
       pose proof (nthZ_range _ _ _ Gp) as R.
